@@ -141,7 +141,7 @@ CLAIMED.update({
         "C02 invariant; subset(L) / subset(L, invert=True) keep exactly the tracks whose label is / is not in L and "
         "partition the annotation; rename_tracks keeps every (segment, label) with the k-th track named by the k-th generated "
         "value, relabel_tracks keeps every (segment, track) with the k-th label, generated mappings follow labels() order, "
-        "generated values pairwise distinct (string and int generators; user iterables tied only).",
+        "generated values pairwise distinct (string and int generators, and user-supplied iterables holding enough values without repetition; one that runs dry makes the call fail).",
         "Trusted: Coq kernel + vm_compute; model; harness.",
         "Coq proof + correspondence evaluated in Coq",
         "DESIGN.md 4/C11"),
